@@ -26,7 +26,7 @@ var hxSingletons = []string{"content-type", "content-transfer-encoding", "mime-v
 
 func HarnessC10RoundTrip() {
 	shape := svPick("shape", svParam("shapes", len(hxC10Shapes)))
-	menc := hxEnc(svPick("menc", 3))
+	menc := hxEnc(svPick("menc", svParam("mencs", 3)))
 	field := svPick("symbolic-field", 3) // 0 body, 1 subject, 2 file name
 	n := svParam("n", 1)
 	sym := svBytes("x", n)
@@ -44,6 +44,9 @@ func HarnessC10RoundTrip() {
 			// text bodies: printable, blank, CR/LF or non-ASCII (valid text is the parser's feature set)
 			svAssume(c >= 0x20 || c == '\r' || c == '\n' || c == '\t')
 			svAssume(c != 0x7f)
+			if menc == EncodingUSASCII {
+				svAssume(c < 0x80) // 7bit is for 7-bit content
+			}
 		}
 	case 1:
 		subject = append(append([]byte("subj "), sym...), 'z')
